@@ -504,8 +504,14 @@ def replay_h_prof(detail):
     present = n - m
     vals = ['v%07d' % (i if i < distinct_present else 0) for i in range(present)]
     col = pd.Series(vals + [None] * m, dtype=object)
-    df = pd.DataFrame({'a': col})
-    out = repo.mod('').profile_table_for_join(df)
+    df = pd.DataFrame({'a': col, 'b': col})
+    pa = detail.get('profile_attrs', ['a'])
+    out = repo.mod('').profile_table_for_join(df, pa)
+    want_rows = ['a', 'b'] if pa is None else list(pa)
+    if list(out.index) != want_rows:
+        return True, 'profile_attrs=%r: result rows %r, expected %r' % (pa, list(out.index), want_rows)
+    if 'a' not in want_rows:
+        return False, 'attribute not profiled in this scenario'
     row = out.loc['a']
     comment = row['Comments']
     lines = ['table: %d rows, %d distinct values (missing counted once), %d missing' % (n, u, m),
@@ -523,7 +529,7 @@ def replay_h_prof(detail):
     if row['Unique values'] != exp_u or row['Missing values'] != exp_m:
         lines.append('statistics differ from %r / %r' % (exp_u, exp_m))
         bad = True
-    if list(out.index) != ['a'] or list(out.columns) != ['Unique values', 'Missing values', 'Comments']:
+    if list(out.columns) != ['Unique values', 'Missing values', 'Comments']:
         bad = True
     return bad, '\n'.join(lines)
 
@@ -642,6 +648,11 @@ def replay_h_ed(detail):
     bad = False
     try:
         if cs['entry'] in ('ed_join', 'ed_split'):
+            if cs.get('warmup_q'):
+                lines.append('first an edit_distance_join with a %d-gram tokenizer on the same tables' % cs['warmup_q'])
+                ssj.edit_distance_join(L.copy(), R.copy(), 'id', 'id', 'attr', 'attr', tau, '<=', False, None, None,
+                                       'l_', 'r_', True, 1, False,
+                                       QgramTokenizer(qval=cs['warmup_q'], padding=cs['padding'], return_set=False))
             out = ssj.edit_distance_join(L, R, 'id', 'id', 'attr', 'attr', tau, op, cs['allow_missing'], None, None,
                                          'l_', 'r_', cs['out_sim_score'], cs['n_jobs'], False, tok)
             lines.append('result:\n%s' % out.to_string())
